@@ -106,6 +106,64 @@ theorem geometric_returns_iff (pInt : Nat) (hp : pInt ≠ alwaysTrue) : ∀ (fue
               obtain ⟨rfl, hs⟩ := hs
               exact ⟨us, v', hs, by simpa using hpl, fun w hw => hpre w (List.mem_cons_of_mem _ hw), hv'⟩
 
+/-- one iteration of the rejection loop reads two geometric draws, one after the other: if
+`DoubleGeometric::sample` returns `v` and leaves `rest`, the stream is `F^{a₁} T F^{a₂} T ++ rest` and
+`v = n + a₁ − a₂`. -/
+theorem doubleGeometric_reads (pInt shift : Nat) (hp : pInt ≠ alwaysTrue) (s : List Nat) (v : Int) (rest : List Nat)
+    (h : doubleGeometric pInt shift s = some (v, rest)) :
+    ∃ (a1 a2 : Nat) (pre1 pre2 : List Nat) (v1 v2 : Nat),
+      s = pre1 ++ v1 :: (pre2 ++ v2 :: rest) ∧ pre1.length = a1 ∧ pre2.length = a2 ∧
+      (∀ u ∈ pre1, ¬ u < pInt) ∧ v1 < pInt ∧ (∀ u ∈ pre2, ¬ u < pInt) ∧ v2 < pInt ∧
+      v = (shift : Int) + a1 - a2 := by
+  unfold doubleGeometric at h
+  cases h1 : geometric pInt (s.length + 1) s 0 with
+  | none => simp [h1] at h
+  | some r1 =>
+    obtain ⟨a1, s1⟩ := r1
+    simp only [h1] at h
+    cases h2 : geometric pInt (s1.length + 1) s1 0 with
+    | none => simp [h2] at h
+    | some r2 =>
+      obtain ⟨a2, s2⟩ := r2
+      simp only [h2, Option.some.injEq, Prod.mk.injEq] at h
+      obtain ⟨rfl, rfl⟩ := h
+      have e1 := (geometric_returns_iff pInt hp (s.length + 1) s 0 a1 s1 (by omega)).mp (by simpa using h1)
+      have e2 := (geometric_returns_iff pInt hp (s1.length + 1) s1 0 a2 s2 (by omega)).mp (by simpa using h2)
+      obtain ⟨pre1, v1, hs, hl1, hf1, hv1⟩ := e1
+      obtain ⟨pre2, v2, hs1, hl2, hf2, hv2⟩ := e2
+      exact ⟨a1, a2, pre1, pre2, v1, v2, by rw [hs, hs1], hl1, hl2, hf1, hv1, hf2, hv2, rfl⟩
+
+/-- what `TruncatedDoubleGeometric::sample` reads: a (possibly empty) chain of rejected iterations followed by an
+accepted one. -/
+inductive Accepts (pInt shift : Nat) : List Nat → Nat → List Nat → Prop
+  | now {s : List Nat} {v : Int} {rest : List Nat} : doubleGeometric pInt shift s = some (v, rest) →
+      0 ≤ v → v ≤ (2 * shift : Nat) → Accepts pInt shift s v.toNat rest
+  | later {s s' : List Nat} {v : Int} {x : Nat} {rest : List Nat} : doubleGeometric pInt shift s = some (v, s') →
+      ¬ (0 ≤ v ∧ v ≤ (2 * shift : Nat)) → Accepts pInt shift s' x rest → Accepts pInt shift s x rest
+
+/-- the rejection loop returns `x` only along such a chain (so "rejected `j` times, then `x`" are exactly the ways to
+output `x`, the events summed in `sampler_law`). -/
+theorem truncated_accepts (pInt shift : Nat) : ∀ (fuel : Nat) (s : List Nat) (x : Nat) (rest : List Nat),
+    truncatedSample pInt shift fuel s = some (x, rest) → Accepts pInt shift s x rest := by
+  intro fuel
+  induction fuel with
+  | zero => intro s x rest h; simp [truncatedSample] at h
+  | succ fuel ih =>
+    intro s x rest h
+    simp only [truncatedSample] at h
+    cases hd : doubleGeometric pInt shift s with
+    | none => simp [hd] at h
+    | some dr =>
+      obtain ⟨v, s'⟩ := dr
+      simp only [hd] at h
+      split at h
+      · rename_i hr
+        simp only [Option.some.injEq, Prod.mk.injEq] at h
+        obtain ⟨rfl, rfl⟩ := h
+        exact Accepts.now hd hr.1 hr.2
+      · rename_i hr
+        exact Accepts.later hd hr (ih s' x rest h)
+
 /-! ### the law -/
 
 /-- probability that a geometric draw returns `k`: the prefix `F^k T`. -/
